@@ -1002,6 +1002,38 @@ func (w *World) verify() {
 		w.r.TieOK()
 	}
 
+	// ---- GetSortedMempoolRBF: the model merges its sorted list with the observed (validated) FeePackages
+	if agree && !txpool.FeePackagesDirty {
+		var sb strings.Builder
+		fmt.Fprintf(&sb, "rbf %d", len(txpool.FeePackages))
+		npk := 0
+		for _, pk := range txpool.FeePackages {
+			fmt.Fprintf(&sb, " %d %d %d", pk.Fee, pk.Weight, len(pk.Txs))
+			for _, t := range pk.Txs {
+				sb.WriteString(" " + btc.BIdxString(t.Hash.BIdx()))
+			}
+			npk++
+		}
+		w.r.Hit("fee-packages:" + bucket(npk))
+		rep := w.ask(sb.String())
+		var ll []string
+		for _, t := range listing {
+			ll = append(ll, btc.BIdxString(t.Hash.BIdx()))
+		}
+		real := strings.Join(ll, " ")
+		switch {
+		case strings.HasPrefix(rep, "bad-pkg"):
+			w.tieFail("model-mismatch:fee-package", "a fee package of gocoin is not what the model's merge relies on (>= 2 members, no duplicates, pooled, closed under in-pool parents with parents first, Fee/Weight = sums): "+rep)
+		case rep != real:
+			w.tieFail("model-mismatch:rbf-listing", "GetSortedMempoolRBF differs from the model's merge "+firstDiff(real, rep))
+		default:
+			w.r.TieOK()
+			if real != rd["L"] {
+				w.r.Hit("rbf-listing:differs-from-sorted-list")
+			}
+		}
+	}
+
 	// ---- the property itself, on the real pool
 	w.checkProperty(listing)
 	w.r.Eval("state:"+bucket(len(txpool.TransactionsToSend))+"-txs", rd["P"]+"#"+rd["R"])
